@@ -78,6 +78,17 @@ def main(pid, tier="quick", seed=0, replay=None):
             exit_code = code
 
     names = [o.name for o in obs]
+    # obligations that use a callee's contract need the obligation proving that contract in the same run
+    todo = list(names)
+    while todo:
+        n = todo.pop()
+        for u in registry.OBLIGATIONS[n].uses:
+            if u not in registry.OBLIGATIONS:
+                print("CHECKER-FAULT obligation %s uses unknown contract %s" % (n, u))
+                return 3
+            if u not in names:
+                names.append(u)
+                todo.append(u)
     recs = runner.run_many(names, tier, seed, None, True) if names else []
     # ---- bounded stand-ins (never counted as proved)
     from . import bounded
@@ -95,7 +106,15 @@ def main(pid, tier="quick", seed=0, replay=None):
     samples = []
     known_hit = []
     diff_samples = 0
+    status_of = {r["name"]: r["status"] for r in recs}
     for r in recs:
+        bad_uses = [u for u in r.get("uses", []) if status_of.get(u) != "proved"]
+        if bad_uses and r["status"] == "proved":
+            lines.append("UNDECIDED obligation=%s relies on contract(s) not discharged in this run: %s" % (
+                r["name"], bad_uses))
+            bump(2)
+            n_clauses += len(r["clauses"])
+            continue
         solver_s += r.get("solver_s", 0) or 0
         for b, c in (r.get("backends") or {}).items():
             backends[b] = backends.get(b, 0) + c
